@@ -1034,6 +1034,9 @@ func pluginExtra(t *tr) string {
 		fmt.Fprintf(&b, "def enginePerInstanceBranch : String := %q\n\n", first)
 	}
 
+	// round 4: the decoder configuration of config.Decode (the fillConf of the hook path)
+	b.WriteString(pluginDecoderConfig(t, load("github.com/yandex/pandora/core/config")))
+
 	// 4. core/register
 	reg := load("github.com/yandex/pandora/core/register")
 	var rows []string
@@ -1234,4 +1237,203 @@ func pluginQuoteList(xs []string) string {
 		q = append(q, fmt.Sprintf("%q", s))
 	}
 	return strings.Join(q, ", ")
+}
+
+// ---------------------------------------------------------------- round 4: the decoder of the hook path
+//
+// pluginDecoderConfig reads core/config `newDecoderConfig` (the mapstructure.DecoderConfig of every config.Decode, which
+// is the fillConf the config hooks hand to plugin.New / NewFactory):
+//   decoderFresh        every value the function returns is a DecoderConfig allocated by THIS call (`return &T{…}`, or a
+//                       local variable whose only definition is `&T{…}` / `T{…}` returned by address) — not the address
+//                       of anything that outlives the call (a package-level variable, a field, a cached pointer);
+//   decoderZeroFields / decoderErrorUnused / decoderWeaklyTyped
+//                       the constant value of the flag in that literal (absent = false), overridden by a later
+//                       `x.Flag = const` on the local variable; a non-constant value is a failed reading;
+//   decoderResultFrom   canonical text of what the Result field is set to (`$any` = the function's parameter);
+//   decodeMakes         canonical arguments of the mapstructure.NewDecoder calls of `Decode`;
+//   decodeAndValidateCalls  the package-level functions `DecodeAndValidate` calls, in source order.
+func pluginDecoderConfig(t *tr, p *packages.Package) string {
+	var b strings.Builder
+	fd := pluginFindDecl(p, "newDecoderConfig")
+	if fd == nil {
+		t.errs = append(t.errs, "config.newDecoderConfig not found")
+		return ""
+	}
+	isDecCfg := func(e ast.Expr) bool {
+		ty := p.TypesInfo.TypeOf(e)
+		return ty != nil && strings.HasSuffix(ty.String(), "mapstructure.DecoderConfig")
+	}
+	// literal behind an expression: `&T{…}` / `T{…}`
+	litOf := func(e ast.Expr) *ast.CompositeLit {
+		if u, ok := e.(*ast.UnaryExpr); ok && u.Op == token.AND {
+			e = u.X
+		}
+		if cl, ok := e.(*ast.CompositeLit); ok && isDecCfg(cl) {
+			return cl
+		}
+		return nil
+	}
+	// local variables of the function: object -> their defining expressions
+	defs := map[types.Object][]ast.Expr{}
+	sets := map[types.Object][][2]ast.Expr{} // x.Field = v, in source order: (selector, value)
+	var order []ast.Stmt
+	ast.Inspect(fd.Body, func(n ast.Node) bool {
+		if as, ok := n.(*ast.AssignStmt); ok && len(as.Lhs) == len(as.Rhs) {
+			for i, l := range as.Lhs {
+				switch lv := l.(type) {
+				case *ast.Ident:
+					if o := p.TypesInfo.ObjectOf(lv); o != nil && o.Parent() != p.Types.Scope() {
+						defs[o] = append(defs[o], as.Rhs[i])
+					}
+				case *ast.SelectorExpr:
+					if id, ok := lv.X.(*ast.Ident); ok {
+						if o := p.TypesInfo.ObjectOf(id); o != nil {
+							sets[o] = append(sets[o], [2]ast.Expr{lv, as.Rhs[i]})
+						}
+					}
+				}
+			}
+			order = append(order, as)
+		}
+		return true
+	})
+	fresh := true
+	var lit *ast.CompositeLit
+	var local types.Object
+	nret := 0
+	ast.Inspect(fd.Body, func(n ast.Node) bool {
+		if _, isLit := n.(*ast.FuncLit); isLit {
+			return false
+		}
+		rs, ok := n.(*ast.ReturnStmt)
+		if !ok || len(rs.Results) != 1 {
+			return true
+		}
+		nret++
+		e := rs.Results[0]
+		if u, ok := e.(*ast.UnaryExpr); ok && u.Op == token.AND {
+			if _, isId := u.X.(*ast.Ident); isId {
+				e = u.X
+			}
+		}
+		if l := litOf(e); l != nil {
+			lit = l
+			return true
+		}
+		if id, ok := e.(*ast.Ident); ok {
+			o := p.TypesInfo.ObjectOf(id)
+			if o != nil && o.Parent() != p.Types.Scope() && len(defs[o]) == 1 && litOf(defs[o][0]) != nil {
+				lit, local = litOf(defs[o][0]), o
+				return true
+			}
+		}
+		fresh = false
+		return true
+	})
+	if nret == 0 || lit == nil {
+		fresh = false
+	}
+	flags := map[string]string{"ZeroFields": "false", "ErrorUnused": "false", "WeaklyTypedInput": "false"}
+	resultFrom := ""
+	setFlag := func(name string, v ast.Expr) {
+		if name == "Result" {
+			resultFrom = pluginCanon(p, fd, v)
+			return
+		}
+		if _, ok := flags[name]; !ok {
+			return
+		}
+		tv, ok := p.TypesInfo.Types[v]
+		if !ok || tv.Value == nil {
+			t.fail(v, "newDecoderConfig: %s is not a constant", name)
+			flags[name] = "false /- not a constant -/"
+			fresh = false
+			return
+		}
+		flags[name] = tv.Value.String()
+	}
+	// the flags: from the literal when the function allocates one, otherwise from wherever the returned value is built
+	// (so that a shared decoder config still yields readings and only `decoderFresh` is false)
+	if lit == nil {
+		for _, f := range p.Syntax {
+			ast.Inspect(f, func(n ast.Node) bool {
+				if cl, ok := n.(*ast.CompositeLit); ok && isDecCfg(cl) && lit == nil {
+					has := false
+					for _, el := range cl.Elts {
+						if kv, ok := el.(*ast.KeyValueExpr); ok && pluginSrc(p.Fset, kv.Key) == "DecodeHook" {
+							has = true
+						}
+					}
+					if has {
+						lit = cl
+					}
+				}
+				return true
+			})
+		}
+	}
+	if lit != nil {
+		for _, el := range lit.Elts {
+			if kv, ok := el.(*ast.KeyValueExpr); ok {
+				setFlag(pluginSrc(p.Fset, kv.Key), kv.Value)
+			}
+		}
+	}
+	for o, ss := range sets {
+		if o == local || (local == nil && pluginIsDecCfgObj(o)) {
+			for _, s := range ss {
+				setFlag(s[0].(*ast.SelectorExpr).Sel.Name, s[1])
+			}
+		}
+	}
+	_ = order
+	fmt.Fprintf(&b, "/-- regenerated from core/config func `newDecoderConfig`: is every returned DecoderConfig allocated by the call itself -/\ndef decoderFresh : Bool := %v\n", fresh)
+	fmt.Fprintf(&b, "/-- regenerated from core/config func `newDecoderConfig`: the decoder's flags (absent = false) -/\ndef decoderZeroFields : Bool := %s\ndef decoderErrorUnused : Bool := %s\ndef decoderWeaklyTyped : Bool := %s\n",
+		flags["ZeroFields"], flags["ErrorUnused"], flags["WeaklyTypedInput"])
+	fmt.Fprintf(&b, "/-- what the Result field is set to ($any = the parameter of newDecoderConfig) -/\ndef decoderResultFrom : String := %q\n", resultFrom)
+	if dd := pluginFindDecl(p, "Decode"); dd != nil {
+		var args []string
+		ast.Inspect(dd.Body, func(n ast.Node) bool {
+			if c, ok := n.(*ast.CallExpr); ok {
+				if sel, ok := c.Fun.(*ast.SelectorExpr); ok && sel.Sel.Name == "NewDecoder" {
+					for _, a := range c.Args {
+						args = append(args, pluginCanon(p, dd, a))
+					}
+				}
+			}
+			return true
+		})
+		fmt.Fprintf(&b, "/-- regenerated from core/config func `Decode`: the arguments of its mapstructure.NewDecoder calls ($any = conf, $any#1 = result) -/\ndef decodeMakes : List String := [%s]\n", pluginQuoteList(args))
+	} else {
+		t.errs = append(t.errs, "config.Decode not found")
+	}
+	if dv := pluginFindDecl(p, "DecodeAndValidate"); dv != nil {
+		var calls []string
+		ast.Inspect(dv.Body, func(n ast.Node) bool {
+			if c, ok := n.(*ast.CallExpr); ok {
+				if id, ok := c.Fun.(*ast.Ident); ok {
+					if o := p.TypesInfo.ObjectOf(id); o != nil && o.Parent() == p.Types.Scope() {
+						calls = append(calls, id.Name+"("+pluginCanonArgs(p, dv, c.Args)+")")
+					}
+				}
+			}
+			return true
+		})
+		fmt.Fprintf(&b, "/-- regenerated from core/config func `DecodeAndValidate`: the package-level functions it calls, in source order -/\ndef decodeAndValidateCalls : List String := [%s]\n\n", pluginQuoteList(calls))
+	} else {
+		t.errs = append(t.errs, "config.DecodeAndValidate not found")
+	}
+	return b.String()
+}
+
+func pluginIsDecCfgObj(o types.Object) bool {
+	return o != nil && o.Type() != nil && strings.HasSuffix(strings.TrimPrefix(o.Type().String(), "*"), "mapstructure.DecoderConfig")
+}
+
+func pluginCanonArgs(p *packages.Package, fd *ast.FuncDecl, args []ast.Expr) string {
+	var out []string
+	for _, a := range args {
+		out = append(out, pluginCanon(p, fd, a))
+	}
+	return strings.Join(out, ", ")
 }
